@@ -894,7 +894,28 @@ fn const_value_json<'tcx>(tcx: TyCtxt<'tcx>, val: ConstValue, ty: Ty<'tcx>) -> J
             J::Null
         }
         ConstValue::ZeroSized => J::s("zst"),
-        ConstValue::Slice { .. } => {
+        ConstValue::Slice { alloc_id, meta } => {
+            // &[f64]: the numbers themselves (coefficient tables)
+            if let ty::Ref(_, inner, _) = ty.kind() {
+                if let ty::Slice(elem) = inner.kind() {
+                    if matches!(elem.kind(), ty::Float(ty::FloatTy::F64)) {
+                        if let Some(rustc_middle::mir::interpret::GlobalAlloc::Memory(a)) = tcx.try_get_global_alloc(alloc_id) {
+                            let a = a.inner();
+                            let n = meta as usize;
+                            if n * 8 <= a.len() {
+                                let bytes = a.inspect_with_uninit_and_ptr_outside_interpreter(0..n * 8);
+                                let mut out = Vec::new();
+                                for i in 0..n {
+                                    let mut b = [0u8; 8];
+                                    b.copy_from_slice(&bytes[i * 8..i * 8 + 8]);
+                                    out.push(scalar_int_json(u64::from_le_bytes(b) as u128, 8, *elem));
+                                }
+                                return J::obj(vec![("floats", J::Arr(out))]);
+                            }
+                        }
+                    }
+                }
+            }
             if let Some(bytes) = val.try_get_slice_bytes_for_diagnostics(tcx) {
                 if let ty::Ref(_, inner, _) = ty.kind() {
                     if inner.is_str() {
@@ -906,6 +927,44 @@ fn const_value_json<'tcx>(tcx: TyCtxt<'tcx>, val: ConstValue, ty: Ty<'tcx>) -> J
             J::Null
         }
         ConstValue::Indirect { alloc_id, offset } => {
+            // a wide pointer &[f64] stored in memory: (pointer with provenance, length)
+            if let ty::Ref(_, inner, _) = ty.kind() {
+                if let ty::Slice(elem) = inner.kind() {
+                    if matches!(elem.kind(), ty::Float(ty::FloatTy::F64)) {
+                        if let Some(rustc_middle::mir::interpret::GlobalAlloc::Memory(a)) = tcx.try_get_global_alloc(alloc_id) {
+                            let a = a.inner();
+                            let start = offset.bytes() as usize;
+                            if start + 16 <= a.len() {
+                                let lenb = a.inspect_with_uninit_and_ptr_outside_interpreter(start + 8..start + 16);
+                                let mut lb = [0u8; 8];
+                                lb.copy_from_slice(lenb);
+                                let n = u64::from_le_bytes(lb) as usize;
+                                let ptrb = a.inspect_with_uninit_and_ptr_outside_interpreter(start..start + 8);
+                                let mut pb = [0u8; 8];
+                                pb.copy_from_slice(ptrb);
+                                let poff = u64::from_le_bytes(pb) as usize;
+                                for (o, prov) in a.provenance().ptrs().iter() {
+                                    if o.bytes() as usize == start {
+                                        if let Some(rustc_middle::mir::interpret::GlobalAlloc::Memory(t)) = tcx.try_get_global_alloc(prov.alloc_id()) {
+                                            let t = t.inner();
+                                            if poff + n * 8 <= t.len() {
+                                                let bytes = t.inspect_with_uninit_and_ptr_outside_interpreter(poff..poff + n * 8);
+                                                let mut out = Vec::new();
+                                                for i in 0..n {
+                                                    let mut b = [0u8; 8];
+                                                    b.copy_from_slice(&bytes[i * 8..i * 8 + 8]);
+                                                    out.push(scalar_int_json(u64::from_le_bytes(b) as u128, 8, *elem));
+                                                }
+                                                return J::obj(vec![("floats", J::Arr(out))]);
+                                            }
+                                        }
+                                    }
+                                }
+                            }
+                        }
+                    }
+                }
+            }
             if let Some(rustc_middle::mir::interpret::GlobalAlloc::Memory(a)) =
                 tcx.try_get_global_alloc(alloc_id)
             {
